@@ -36,7 +36,7 @@ function load(path) {
   let mod;
   try {
     const f = new Function('HookNext', 'HookRec', 'console',
-      js + '\n;return {Parser: Parser, initialize: initialize, translate: translate, StateActionArray: StateActionArray, ERROR_ACTION: ERROR_ACTION, ACCEPT_ACTION: ACCEPT_ACTION};');
+      js + '\n;return {Parser: Parser, initialize: initialize, translate: translate, StateActionArray: StateActionArray, ERROR_ACTION: ERROR_ACTION, ACCEPT_ACTION: ACCEPT_ACTION, VConsts: (typeof VConsts === "function" ? VConsts : null)};');
     mod = f(hookNext, hookRec, fakeConsole);
   } catch (err) {
     return { loadError: String(err && err.stack || err).slice(0, 1500) };
@@ -105,6 +105,7 @@ function main() {
       }
     } else if (j.k === 'translate') {
       r.trans = (j.codes || []).map(c => mod.translate(c));
+      if (mod.VConsts) r.consts = mod.VConsts();
     } else {
       r.err = 'job kind not supported for typescript: ' + j.k;
     }
